@@ -94,6 +94,25 @@ func embedRego(position, code, helper string) string {
 		return head + "    or:\n      - " + fmt.Sprintf(ok, strings.Repeat(" ", 10), strings.Repeat(" ", 10)) + "      - " + strings.TrimLeft(block("rego", 8), " ")
 	case "if":
 		return head + "    if:\n" + block("rego", 6) + "    then:\n      " + fmt.Sprintf(ok, strings.Repeat(" ", 8), strings.Repeat(" ", 8))
+	case "then":
+		return head + "    if:\n      " + fmt.Sprintf(ok, strings.Repeat(" ", 8), strings.Repeat(" ", 8)) + "    then:\n" + block("rego", 6)
+	case "else":
+		return head + "    if:\n      " + fmt.Sprintf(ok, strings.Repeat(" ", 8), strings.Repeat(" ", 8)) + "    then:\n      " + fmt.Sprintf(ok, strings.Repeat(" ", 8), strings.Repeat(" ", 8)) + "    else:\n" + block("rego", 6)
+	case "not-else":
+		return head + "    not:\n      if:\n        " + fmt.Sprintf(ok, strings.Repeat(" ", 10), strings.Repeat(" ", 10)) + "      then:\n        " + fmt.Sprintf(ok, strings.Repeat(" ", 10), strings.Repeat(" ", 10)) + "      else:\n" + block("regoModule", 8)
+	case "atMost":
+		return head + "    propertyConstraints:\n      ex.p0:\n        atMost:\n          count: 1\n          validation:\n" + block("rego", 12)
+	case "exactly":
+		return head + "    propertyConstraints:\n      ex.p0:\n        exactly:\n          count: 1\n          validation:\n" + block("rego", 12)
+	case "nested-or":
+		return head + "    propertyConstraints:\n      ex.p0:\n        nested:\n          or:\n            - " + fmt.Sprintf(ok, strings.Repeat(" ", 16), strings.Repeat(" ", 16)) + "            - " + strings.TrimLeft(block("rego", 14), " ")
+	case "warning-level":
+		return strings.Replace(head, "violation:\n  - v", "warning:\n  - v", 1) + block("rego", 4)
+	case "second-validation":
+		// the first validation is purely declarative, the second one embeds Rego
+		h2 := strings.Replace(head, "violation:\n  - v\n", "violation:\n  - decl\ninfo:\n  - v\n", 1)
+		h2 = strings.Replace(h2, "validations:\n  v:", "validations:\n  decl:\n    targetClass: ex.T\n    message: m\n    "+fmt.Sprintf(ok, strings.Repeat(" ", 6), strings.Repeat(" ", 6))+"  v:", 1)
+		return h2 + block("rego", 4)
 	case "path-rego":
 		return head + "    propertyConstraints:\n      ex.p0:\n" + block("rego", 8)
 	case "nested":
@@ -107,7 +126,7 @@ func embedRego(position, code, helper string) string {
 	panic(position)
 }
 
-var c08Positions = []string{"rego", "regoModule", "code-message", "not", "and", "or", "if", "path-rego", "nested", "atLeast", "helper", "extensions-only"}
+var c08Positions = []string{"rego", "regoModule", "code-message", "not", "and", "or", "if", "then", "else", "not-else", "path-rego", "nested", "nested-or", "atLeast", "atMost", "exactly", "warning-level", "second-validation", "helper", "extensions-only"}
 var c08Syntaxes = []string{"assign", "comprehension", "argument", "statement"}
 
 func genC08(g *G, n int, out io.Writer, full bool) {
